@@ -457,8 +457,25 @@ def hashReady (c : Case) (s : Snap) : Bool :=
     ns.all (fun n => (readSnap c s n).isSome) &&
     (!c.init.run.cfg.cacheHash || c.gs == .attrs || (readSnap c s cacheName).isSome)
 
+/-- what is observed of a returned object that can be hashed: `reshash` (hash() works and is stable) and
+    `twin` (it hashes like, and is found in a dict keyed by, a freshly built instance with the same field
+    values — a stale cached hash code would break this) -/
+def hashFlags : List String := ["reshash", "twin"]
+
 def copyFlags (c : Case) (lf : Leaf) (s : IState) : List String :=
-  resFlags lf ++ (if hashReady c (render c s) then ["reshash"] else [])
+  resFlags lf ++ (if hashReady c (render c s) then hashFlags else [])
+
+/-- an instance that came out of the initializer (evolve) with these field values can be hashed through the
+    generated `__hash__`: the hashed fields are set and the cache is where `__hash__` looks (not the K2 layout) -/
+def evolveReady (c : Case) (vals : List (String × Option Val)) : Bool :=
+  match c.hashNames with
+  | none => false
+  | some ns =>
+    ns.all (fun n => (lookupO n vals).isSome) &&
+    !(c.init.run.cfg.cacheHash && !c.init.run.cfg.slots && c.slotNames.contains cacheName)
+
+def evolveFlags (c : Case) (lf : Leaf) (vals : List (String × Option Val)) : List String :=
+  resFlags lf ++ (if evolveReady c vals then hashFlags else [])
 
 def step (c : Case) (lf : Leaf) (s : IState) (op : Op) : StepObs × IState :=
   let plain (r : Option Exc × IState) : StepObs × IState :=
@@ -492,7 +509,7 @@ def step (c : Case) (lf : Leaf) (s : IState) (op : Op) : StepObs × IState :=
     let o := runInit { effInit c lf.frozen with call := C12.evolveCall attrs cur ch }
     match o.exc with
     | some e => plain (some e, s)
-    | none => ({ exc := none, snap := render c s, values := some o.values, flags := resFlags lf }, s)
+    | none => ({ exc := none, snap := render c s, values := some o.values, flags := evolveFlags c lf o.values }, s)
   | .raise_ =>
     let s' := { s with ex := { s.ex with tb := true } }
     ({ exc := none, snap := render c s', values := none, flags := ["caught"] }, s')
